@@ -78,7 +78,7 @@ def cases(shard, rnd):
         k += 1
         yield {'data': data, 'label': label,
                'trace': label.startswith(('field:', 'inner-', 'deep', 'big',
-                                          'flag-', 'timestamps'))
+                                          'flag-', 'timestamps', 'huge'))
                or k % 10 == 0}
 
 
